@@ -271,7 +271,7 @@ Proof.
   intros H Hh. unfold repr_vline in H. apply andb_true_iff in H. destruct H as [Hv Hc]. apply voice_ok_annot in Hv.
   unfold line_html_ok in Hh. apply andb_true_iff in Hh. destruct Hh as [Hh H0]. apply andb_true_iff in Hh. destruct Hh as [Hvo Hrs].
   assert (T : forallb tok_good (tokenize (removelast (vline_bytes l))) = true).
-  { rewrite vline_bytes_removelast. unfold tokenize.
+  { rewrite vline_bytes_removelast, (voice_part_ok l Hv). unfold tokenize.
     pose proof (TokAll_runs (vl_runs l) None) as R.
     destruct (vl_voice l) as [|c v'] eqn:Ev.
     - cbn [app]. apply (R [] Hc Hrs). lia.
@@ -386,9 +386,9 @@ Qed.
 Lemma repr_line_html_ok l : repr_vline l = true -> line_html_ok l = true.
 Proof.
   intros H. unfold repr_vline in H. apply andb_true_iff in H. destruct H as [Hv Hc].
-  unfold voice_ok in Hv. rewrite !andb_true_iff in Hv. destruct Hv as ((_ & Hvo) & Hvn).
+  unfold voice_ok in Hv. rewrite !andb_true_iff in Hv. destruct Hv as ((Hva & Hvo) & Hvn).
   unfold line_html_ok. rewrite Hvo, (chain_ok_html _ _ Hc). cbn [andb].
-  change (nonul (removelast (vline_bytes l)) = true). apply NoNul_nonul. rewrite vline_bytes_removelast.
+  change (nonul (removelast (vline_bytes l)) = true). apply NoNul_nonul. rewrite vline_bytes_removelast, (voice_part_ok l Hva).
   apply NoNul_app; [|apply NoNul_runs; exact Hc].
   destruct (vl_voice l) as [|c v']; [apply NoNul_nil|].
   repeat (apply NoNul_cons; [discriminate|]). apply NoNul_app; [apply nonul_NoNul; exact Hvn | apply NoNul_cons; [discriminate | apply NoNul_nil]].
